@@ -453,10 +453,9 @@ def loss_class_ops():
     return ops
 
 
-# Operations on which the unchanged tree violates the property (reported to the lead with input + patch, decision pending):
-# SpatialTransform.disp(grid) / flow(grid) on a grid other than the transform's own -- DataTensor wrapping detaches (non-rigid),
-# CompositeTransform.disp rounds coordinates on the differentiable path (other domain).  Switched on once /repo is repaired.
-INCLUDE_OPS_AWAITING_DECISION = False
+# SpatialTransform.disp(grid) / flow(grid) on a grid other than the transform's own (other sampling, other domain), w.r.t. the
+# parameters: non-rigid transforms resample their displacement field, composite / linear transforms re-express coordinates
+# (both were defects of the original tree: DataTensor wrapping detached the field, CompositeTransform.disp rounded coordinates).
 
 
 def disp_other_grid_ops():
@@ -681,8 +680,7 @@ def registry():
                 ops.append(Op(f"{name}.inverse(update_buffers={ub}).{via}", inverse_op(cls, ub, via), dims=dims, max_coords=10))
     ops += loss_class_ops()
     ops += option_variant_ops()
-    if INCLUDE_OPS_AWAITING_DECISION:
-        ops += disp_other_grid_ops()
+    ops += disp_other_grid_ops()
     return ops
 
 
